@@ -1303,6 +1303,7 @@ package reflect
 //@   ensures c12_fields: forall i int :: {d.fields[i]} 0 <= i && i < len(ff) ==> d.fields[i] != nil && d.fields[i].ID == ff[i].ID && d.fields[i].Offset == ff[i].F && d.fields[i].Spec == ff[i].Spec && d.fields[i].Type == descOf(ff[i].Type) && d.fieldIdx[ff[i].ID] >= 0
 //@   ensures c09_required: forall j int :: {d.requiredFieldIDs[j]} 0 <= j && j < len(d.requiredFieldIDs) ==> d.requiredFieldIDs[j] <= d.maxID && d.fieldIdx[d.requiredFieldIDs[j]] >= 0
 //@   ensures c04_var: forall j int :: {d.varLenFields[j]} 0 <= j && j < len(d.varLenFields) ==> 0 <= d.varLenFields[j] && d.varLenFields[j] < len(d.fields)
+//@   ensures c09_complete: forall i int :: {d.fields[i]} 0 <= i && i < len(d.fields) && d.fields[i].Spec == defs.Required ==> exists j int :: 0 <= j && j < len(d.requiredFieldIDs) && d.requiredFieldIDs[j] == d.fields[i].ID
 //@   loop 0 invariant forall j int :: {ff[j]} 0 <= j && j <= rangeindex ==> ff[j].ID <= maxFieldID
 //@   loop 1 invariant len(d.fieldIdx) == d.maxID + 1 && (forall j int :: {ff[j]} 0 <= j && j < len(ff) ==> ff[j].ID <= d.maxID) && old($brk) <= d.fieldIdx.ptr
 //@   loop 1 invariant forall k int :: {d.fieldIdx[k]} 0 <= k && k <= rangeindex ==> d.fieldIdx[k] == -1
@@ -1317,6 +1318,7 @@ package reflect
 //@   loop 3 invariant idx: forall k int :: {d.fieldIdx[k]} 0 <= k && k < len(d.fieldIdx) ==> -1 <= d.fieldIdx[k] && d.fieldIdx[k] < len(d.fields) && (d.fieldIdx[k] >= 0 ==> d.fields[d.fieldIdx[k]].ID == k)
 //@   loop 3 invariant flds: forall i int :: {d.fields[i]} 0 <= i && i < len(ff) ==> d.fields[i] != nil && d.fields[i].ID == ff[i].ID && d.fields[i].Offset == ff[i].F && d.fields[i].Spec == ff[i].Spec && d.fields[i].Type == descOf(ff[i].Type) && d.fields[i].Type != nil && wfT(d.fields[i].Type) && d.fieldIdx[ff[i].ID] >= 0
 //@   loop 3 invariant req: forall j int :: {d.requiredFieldIDs[j]} 0 <= j && j < len(d.requiredFieldIDs) ==> d.requiredFieldIDs[j] <= d.maxID && d.fieldIdx[d.requiredFieldIDs[j]] >= 0
+//@   loop 3 invariant c09_complete: forall i int :: {d.fields[i]} 0 <= i && i <= rangeindex && d.fields[i].Spec == defs.Required ==> exists j int :: 0 <= j && j < len(d.requiredFieldIDs) && d.requiredFieldIDs[j] == d.fields[i].ID
 //@   loop 3 invariant var: forall j int :: {d.varLenFields[j]} 0 <= j && j < len(d.varLenFields) ==> 0 <= d.varLenFields[j] && d.varLenFields[j] <= rangeindex
 //@   loop 3 invariant len(d.varLenFields) <= rangeindex + 1 && len(d.requiredFieldIDs) <= rangeindex + 1 && cap(d.varLenFields) == len(ff) && cap(d.requiredFieldIDs) == len(ff)
 //@   loop 3 invariant 0 <= d.fixedLenFieldSize && d.fixedLenFieldSize <= 11 * (rangeindex + 1)
